@@ -65,7 +65,7 @@ QUICK = dict(cases=320, workers=2, timecap=45)
 THOROUGH = dict(cases=40000, workers=16, timecap=600)
 REQUIRED = {"cell": 20000, "total": 500, "additivity": 5000, "mask": 5000, "active_total": 500, "bins": 400,
             "periodicity": 5000, "periodicity_chords": 5000, "oracle_xcheck": 300, "miss": 50, "layout": 20,
-            "pipeline": 1000, "emission_function": 500}
+            "pipeline": 1000, "pipeline_reuse": 300, "emission_function": 500}
 
 DELTA0 = 2.0e-8
 TANGENT_KEY = "cyl:ray-tangent-to-inner-bounding-cylinder:chord-before-tangent-point-lost"        # radius_inner > 0
@@ -634,8 +634,17 @@ def _check_pipelines(ctx, A, rays, geom):
         cam.quiet = True
         cam.render_engine = SerialEngine()
         cam.observe()
+        mat = np.array(pipe.matrix, dtype=float)
+        # the same pipeline object observed again must give the same matrix (no state carried over between observations)
+        cam.observe()
+        mat2 = np.array(pipe.matrix, dtype=float)
         cam.parent = None
-        mat = np.asarray(pipe.matrix)
+        if mat2.shape == mat.shape:
+            ctx.close(mat2, mat, "pipeline2d:reobserve-differs:%s" % kind,
+                      "RayTransferPipeline2D gives a different matrix when the same pipeline object is used for a second observe()",
+                      atol=max(r["sum_atol"] for r in hit), monitor="pipeline_reuse")
+        else:
+            ctx.viol("pipeline2d:reobserve-differs:%s" % kind, "matrix shape changed on the second observe()", shape=list(mat2.shape))
         ok = ctx.check(mat.shape == (n, 1, bins), "pipeline2d:matrix-shape", "RayTransferPipeline2D.matrix has the wrong shape",
                        monitor="pipeline", shape=list(mat.shape))
         if ok:
@@ -659,6 +668,13 @@ def _check_pipelines(ctx, A, rays, geom):
         sl.quiet = True
         sl.render_engine = SerialEngine()
         sl.observe()
+        first = np.array(pipe.matrix, dtype=float)
+        for _rep in range(2):
+            sl.observe()
+            again = np.array(pipe.matrix, dtype=float)
+            ctx.close(again, first, "pipeline0d:reobserve-differs:%s" % kind,
+                      "RayTransferPipeline0D gives a different matrix when the same pipeline object is used for another observe()",
+                      atol=(sens if kind == "power" else 1.0) * r["sum_atol"], monitor="pipeline_reuse", repeat=_rep + 2)
         axis = Vector3D(0, 0, 1).transform(sl.to_root())
         org = Point3D(0, 0, 0).transform(sl.to_root())
         sl.parent = None
